@@ -1,9 +1,9 @@
 /-
   C04 for grid, part 1: `Scalable` instances for the records of the grid model (generated boilerplate) and `gscale`.
 
-  NOTE: `Scalable (Style Rat)` (Model/Scale.lean) predates `Style.grid` and leaves the grid extension untouched, so
-  `scale k style` does not scale the lengths inside `grid_template_*` / `grid_auto_*`.  `gscale k style` does:
-  `length` and `fit-content(px)` track sizing functions are scaled; percentages and `fr` factors are not.
+  NOTE: `Scalable (Style Rat)` (Model/Scale.lean) scales `Style.grid` too (the instances for the track sizing functions
+  and `GridExt` live there): `length` and `fit-content(px)` track sizing functions are scaled; percentages and `fr`
+  factors are not.  `gscale k style` is an abbreviation of `scale k style` (kept for the grid lemma files).
 -/
 import TaffyVerif.Lemmas.ScaleAbs
 import TaffyVerif.Lemmas.ScaleBlock
@@ -15,25 +15,6 @@ set_option linter.unusedSimpArgs false
 
 namespace C04
 open Scalable GridModel GridTracks GridStages
-
-instance : Scalable (MinTrack Rat) :=
-  ⟨fun k f => match f with
-    | .length v => .length (scale k v)
-    | .percent v => .percent v
-    | .auto => .auto
-    | .minContent => .minContent
-    | .maxContent => .maxContent⟩
-
-instance : Scalable (MaxTrack Rat) :=
-  ⟨fun k f => match f with
-    | .length v => .length (scale k v)
-    | .percent v => .percent v
-    | .auto => .auto
-    | .minContent => .minContent
-    | .maxContent => .maxContent
-    | .fitContentPx v => .fitContentPx (scale k v)
-    | .fitContentPercent v => .fitContentPercent v
-    | .fr v => .fr v⟩
 
 @[scale_simp] theorem mint_length (k v : Rat) : scale k (MinTrack.length v) = .length (scale k v) := rfl
 @[scale_simp] theorem mint_percent (k v : Rat) : scale k (MinTrack.percent v) = .percent v := rfl
@@ -50,27 +31,20 @@ instance : Scalable (MaxTrack Rat) :=
     scale k (MaxTrack.fitContentPercent v) = .fitContentPercent v := rfl
 @[scale_simp] theorem maxt_fr (k v : Rat) : scale k (MaxTrack.fr v) = .fr v := rfl
 
-instance : Scalable (TrackFn Rat) := ⟨fun k f => ⟨scale k f.min, scale k f.max⟩⟩
 @[scale_simp] theorem tfn_mk (k : Rat) (a : MinTrack Rat) (b : MaxTrack Rat) :
     scale k (TrackFn.mk a b) = ⟨scale k a, scale k b⟩ := rfl
 @[scale_simp] theorem tfn_min (k : Rat) (f : TrackFn Rat) : (scale k f).min = scale k f.min := rfl
 @[scale_simp] theorem tfn_max (k : Rat) (f : TrackFn Rat) : (scale k f).max = scale k f.max := rfl
 
-instance : Scalable (TrackDef Rat) :=
-  ⟨fun k d => match d with
-    | .single f => .single (scale k f)
-    | .rep r fs => .rep r (scale k fs)⟩
 @[scale_simp] theorem tdef_single (k : Rat) (f : TrackFn Rat) : scale k (TrackDef.single f) = .single (scale k f) := rfl
 @[scale_simp] theorem tdef_rep (k : Rat) (r : Repetition) (fs : List (TrackFn Rat)) :
     scale k (TrackDef.rep r fs) = .rep r (scale k fs) := rfl
 
-instance : Scalable (GridExt Rat) :=
-  ⟨fun k g =>
-    { g with templateRows := scale k g.templateRows, templateColumns := scale k g.templateColumns,
-             autoRows := scale k g.autoRows, autoColumns := scale k g.autoColumns }⟩
+/-- scaling of a style INCLUDING its grid extension: since `Scalable (Style Rat)` scales `Style.grid`, this IS `scale`
+(the name is kept as an abbreviation used by the grid lemma files) -/
+@[reducible] def gscale (k : Rat) (s : Style Rat) : Style Rat := scale k s
 
-/-- scaling of a style INCLUDING its grid extension -/
-@[reducible] def gscale (k : Rat) (s : Style Rat) : Style Rat := { scale k s with grid := scale k s.grid }
+theorem gscale_eq (k : Rat) (s : Style Rat) : gscale k s = scale k s := rfl
 
 instance : Scalable (Ext Rat) :=
   ⟨fun k e => match e with
